@@ -23,9 +23,9 @@ M = [
  ("C15_symbols_at_segment_start_skipped", "src/elf/elf.rs", "                    if symbol.is_undefined() {", "                    if symbol.is_undefined() || symbol.st_value & 0xfff == 0 {", None),
  ("C16_unwrap_segment_data", "src/elf/elf.rs", "            let content = file.segment_data(&segment)?;", "            let content = file.segment_data(&segment).unwrap();", None),
  ("C17_parity_inverted", "src/state/memory.rs", "        if stack_layout.len() % 2 == 1 {", "        if stack_layout.len() % 2 == 0 {", None),
- ("C18_return_level_plus", "src/helpers/trace.rs", "                TraceVariant::Return => lvl -= 1,", "                TraceVariant::Return => lvl -= (lvl > 0) as i16,", None),
- ("C19_unwrap_operand_kind", "src/instructions/push.rs", "            _ => fatal_error!(\"Invalid operand {:?} for PUSH imm8\", i.op0_kind()),", "            _ => unreachable!(\"Invalid operand {:?} for PUSH imm8\", i.op0_kind()),", None),
- ("C20_cdq_consults_rdx", "src/instructions/cdq.rs", "        let edx = if eax & 0x8000_0000 == 0 {\n            0\n        } else {", "        let edx = if eax & 0x8000_0000 == 0 {\n            self.reg_read_64(RDX)? >> 63\n        } else {", None),
+ ("C18_return_level_plus", "src/helpers/trace.rs", "                TraceVariant::Return => lvl -= 1,", "                TraceVariant::Return => lvl -= (lvl > 0) as i64,", None),
+ ("C19_r13l_missing_from_table", "src/state/registers.rs", "            Register::R13L => SupportedRegister::R13L,\n", "", None),
+ ("C20_cdq_consults_rdx", "src/instructions/cdq.rs", "        let edx = if eax & 0x8000_0000 == 0 {\n            0\n        } else {", "        let edx = if eax & 0x8000_0000 == 0 {\n            self.reg_read_64(RDX)? & 1\n        } else {", None),
 ]
 for name, path, old, new, occ in M:
     p = '/repo/' + path
